@@ -1,7 +1,8 @@
 """C08 — the returned U is the first Symanzik polynomial; L matrix symmetric with entries sum_e x_e s_ei s_ej."""
 from fractions import Fraction
-from ..core import f2b, b2f
+from ..core import f2b, b2f, run_harness, run_driver
 from .. import samples as S, sample_checks as SC, kin, exact as X
+from ..cmp import bits_close
 
 MODULE = "Momtrop.Props.C08"
 THEOREMS = ["Momtrop.C08.lMatrix_symm", "Momtrop.C08.lMatrix_entry", "Momtrop.C08.lMatrix_symmOn", "Momtrop.C08.u_eq_det", "Momtrop.C08.lMat_basis_change", "Momtrop.C08.lMat_orientation", "Momtrop.C08.det_basis_change", "Momtrop.C08.unimodular_sq"]
@@ -23,12 +24,13 @@ def run(ctx):
     ss += S.generate(ctx, 3 if ctx.quick else 12, 1, max_e=6, max_loops=4, routings_per_graph=12, names=["banana4", "banana5", "mercedes"],
                      variant="big", kinds=("uniform",))
     # bases in which loops that share no edge are NEIGHBOURS and coupled loops are not (zeros next to the diagonal of L, non-zeros further out)
-    ss += S.generate(ctx, 3 if ctx.quick else 12, 1, max_e=7, max_loops=4, routings_per_graph=8,
-                     names=["sunrise_tadpole", "bubble_chain3", "triangle_tadpole", "bubble_chain"], variant="permuted", kinds=("uniform",))
+    for nm in ("sunrise_tadpole", "bubble_chain3", "triangle_tadpole", "bubble_chain"):      # each of them in every run
+        ss += S.generate(ctx, 1 if ctx.quick else 3, 1, max_e=7, max_loops=4, routings_per_graph=10, names=[nm], variant="permuted", kinds=("uniform",))
     # as many edges as loops (bouquets of self-loops): the signature is a square matrix; non-symmetric bases
     ss += S.generate(ctx, 4 if ctx.quick else 16, 2, max_e=4, max_loops=3, routings_per_graph=4, names=["tadpole_pair", "rose3"], mass_mode="all")
     S.run(ss)
     SC.corr_matrix(ctx, ss)
+    SC.generic_scalar_guard(ctx, [s for s in ss if s["routing"]["L"] >= 2][:: 5], k=8, tol=1e-3)
     byg = {}
     for s in ss:
         a, c, r = s["impl"], s["case"], s["routing"]
@@ -42,6 +44,7 @@ def run(ctx):
             continue
         xb = a["log"]["momtrop_feynman_parameter"]
         if not SC.finite(xb) or not SC.finite(a["meta"]["l"]) or not SC.finite([a["u"]]):
+            SC.nonfinite_verdict(ctx, s, fields=("u",))
             ctx.count("nonfinite_parameters_skipped"); continue
         x = SC.fr_list(xb)
         ex = SC.exact_quantities(s, x)
@@ -76,3 +79,72 @@ def run(ctx):
             ctx.count("basis_pairs_compared")
             if abs(u0 - u1) > (t0 + t1) * max(abs(u0), abs(u1)):
                 ctx.violation(f"u depends on the supplied cycle basis: {float(u0)!r} vs {float(u1)!r}", S.small_req(s1), expected=float(u0), observed=float(u1))
+
+    # ---- the same two mechanisms (compute_l_matrix, determinant of the decomposition) at Feynman parameters with an extreme hierarchy
+    # BETWEEN loops that the sampler's normalisation rarely produces: every loop of a fundamental basis gets its own scale 10^k_l with
+    # sum k_l ~ 0 (U is an ordinary number although pivots reach 1e+-160), tree edges far below every loop scale
+    rng = ctx.rng
+    hreqs, hinfo = [], []
+    from .. import gen
+    pool = []
+    for name, edges in gen.CATALOGUE.items():
+        nv = len(set(v for e in edges for v in e))
+        nl = len(edges) - nv + 1
+        if 2 <= nl <= 6 and len(edges) <= 9:
+            pool.append((name, list(edges), nl))
+    for _ in range(16 if ctx.quick else 100):
+        name, edges, nl = rng.choice(pool)
+        if rng.random() < 0.6:
+            name, edges, nl = rng.choice([p for p in pool if p[2] >= 4])
+        n = len(edges)
+        Sg, tree = kin.fundamental_signature(rng, edges)
+        own = {}
+        for e in range(n):
+            nz = [l for l in range(nl) if Sg[e][l] != 0]
+            if len(nz) == 1 and nz[0] not in own:
+                own[nz[0]] = e
+        if len(own) < nl:
+            continue
+        half = nl // 2
+        ks = [rng.randint(150, 160) for _ in range(half)] + [-rng.randint(150, 160) for _ in range(nl - half)]
+        order = rng.choice(["big_first", "small_first", "shuffled"])
+        if order == "small_first":
+            ks.reverse()
+        elif order == "shuffled":
+            rng.shuffle(ks)
+        tot = sum(ks)
+        j = rng.randrange(nl)
+        ks[j] = max(-290, min(290, ks[j] - tot + rng.randint(-5, 5)))
+        x = [10.0 ** (min(ks) - 12)] * n
+        for l, e in own.items():
+            x[e] = rng.uniform(1, 9) * 10.0 ** ks[l]
+        s_ = dict(routing=dict(sig=Sg, L=nl), case=dict(name=name, edges=edges))
+        hreqs.append({"op": "lmat", "x": [f2b(v) for v in x], "sig": Sg}); hinfo.append((s_, x, ks)); ctx.count("hierarchy." + order)
+    la = run_harness(hreqs)
+    lm_ = run_driver(hreqs)
+    dreqs = [{"op": "decomp", "n": s["routing"]["L"], "a": a.get("l", [])} for a, (s, x, ks) in zip(la, hinfo)]
+    da, dm = run_harness(dreqs), run_driver(dreqs)
+    for rq, a, m, dq, d1, d2, (s, x, ks) in zip(hreqs, la, lm_, dreqs, da, dm, hinfo):
+        r, c = s["routing"], s["case"]
+        nl = r["L"]
+        ctx.case(["hierarchy", r["sig"], rq["x"]], nontrivial=True); ctx.count("loop_hierarchy_points")
+        small = {"op": "lmat+decomp", "sig": r["sig"], "x": rq["x"], "graph": c["name"]}
+        if a.get("l") != m.get("l"):
+            ctx.mismatch("lMatrix model vs compute_l_matrix at hierarchical parameters", small, a, m)
+        if d1.get("status") == "panic":
+            ctx.violation("decompose_for_tropical panicked on an L matrix", small, observed=d1); continue
+        if d1.get("status") != d2.get("status") or (d1.get("status") == "ok" and not bits_close(d1["det"], d2["det"], 4)):
+            ctx.mismatch("decompose model vs decompose_for_tropical on L at hierarchical parameters (status/determinant)", small,
+                         {k: d1.get(k) for k in ("status", "det")}, {k: d2.get(k) for k in ("status", "det")})
+        xf = [Fraction(v) for v in x]
+        Lx = [[sum(xf[e] * r["sig"][e][i] * r["sig"][e][j] for e in range(len(xf))) for j in range(nl)] for i in range(nl)]
+        det = X.det(Lx)
+        if not (Fraction(10) ** -290 < det < Fraction(10) ** 290):
+            ctx.count("hierarchy_det_out_of_range_skipped"); continue
+        if d1.get("status") != "ok":
+            ctx.violation(f"L matrix at parameters with loop scales 1e{ks}: decomposition reports {d1.get('status')}, the exact determinant is {float(det):.3e}",
+                          small, expected=float(det), observed=d1.get("status")); continue
+        got = Fraction(b2f(d1["det"])) if X.is_finite_bits(d1["det"]) else None
+        if got is None or abs(got - det) > Fraction(1, 10 ** 9) * det:
+            ctx.violation(f"u = {b2f(d1['det'])!r} at parameters with loop scales 1e{ks}, exact determinant (spanning-tree sum) {float(det):.6e}",
+                          small, expected=float(det), observed=b2f(d1["det"]))
